@@ -484,6 +484,8 @@ impl World for Acc {
         let e = envx::mk_env(100);
         let verifier = e.register(wrap::MockVerifier, ());
         let pol = [e.register(wrap::MockPolicy, ()), e.register(wrap::MockPolicy, ())];
+        // P2's uninstall hook always fails: a removed policy must stop gating its rule all the same
+        call_mocked(&e, &pol[1], "set_trap_uninstall", (true,).into_val(&e)).expect("set_trap_uninstall");
         for p in &pol {
             call_mocked(&e, p, "set_flags", (true, false).into_val(&e)).expect("flags");
         }
@@ -568,8 +570,46 @@ impl World for Acc {
     }
 
     fn step(&self, i: &mut Inst, _m: &mut u32, op: &Op, cx: &mut StepCtx<Self>) -> Result<bool, Violation> {
+        let before = self.rules(i).unwrap_or_default();
         if !self.exec(i, op) {
             return Ok(false);
+        }
+        // The rule requirement the statement speaks of is the one the edit history implies: an
+        // accepted edit must have exactly its effect on the rule it names (the full registry
+        // semantics are C20's subject; here only what decides which requirement is in force).
+        {
+            let after = self.rules(i)?;
+            let find = |rs: &Vec<Rule>, id: u32| rs.iter().find(|r| r.id == id).cloned();
+            match op {
+                Op::AddPolicy { id, p } | Op::RemovePolicy { id, p } => {
+                    let (b, a) = (find(&before, *id), find(&after, *id));
+                    if let (Some(b), Some(a)) = (b, a) {
+                        let mut want = b.policies.clone();
+                        if matches!(op, Op::AddPolicy { .. }) {
+                            want.insert(*p);
+                        } else {
+                            want.remove(p);
+                        }
+                        ensure!(a.policies == want && a.signers == b.signers, "edit-effect", "after accepted {:?}: rule {} has policies {:?} signers {:?}, expected policies {:?} signers {:?}", op, id, a.policies, a.signers, want, b.signers);
+                    }
+                }
+                Op::AddSigner { id, s } | Op::RemoveSigner { id, s } => {
+                    let (b, a) = (find(&before, *id), find(&after, *id));
+                    if let (Some(b), Some(a)) = (b, a) {
+                        let mut want = b.signers.clone();
+                        if matches!(op, Op::AddSigner { .. }) {
+                            want.insert(*s);
+                        } else {
+                            want.remove(s);
+                        }
+                        ensure!(a.signers == want && a.policies == b.policies, "edit-effect", "after accepted {:?}: rule {} has signers {:?} policies {:?}, expected signers {:?} policies {:?}", op, id, a.signers, a.policies, want, b.policies);
+                    }
+                }
+                Op::RemoveRule { id } => {
+                    ensure!(find(&after, *id).is_none(), "edit-effect", "after accepted {:?} the rule is still listed", op);
+                }
+                _ => {}
+            }
         }
         // phase 2 runs on a rebuilt copy of the new configuration, so that the explored instance
         // keeps exactly the storage the configuration history produced
